@@ -55,7 +55,7 @@ def elastic_prefix(l, name, hyp):
             if d == 3:
                 pre += [72e9, 52e9]
     if _ushort(l, name, hyp, "requiresThermalExpansionCoefficientTensor"):
-        pre += [1e-5] if not ortho else [1e-5, 1.2e-5, 0.8e-5]
+        pre += [1e-5] if _ushort(l, name, hyp, "SymmetryType") != 1 else [1e-5, 1.2e-5, 0.8e-5]
     return pre
 
 
